@@ -40,6 +40,7 @@ def plan(tier):
     # (tm_scenarios.py; they reach situations the bounded exhaustive configuration and short simulations rarely reach)
     p.scenarios = ['lock_unlock', 'relock_and_pol_proposal', 'locked_without_proposal', 'stale_polka_must_not_unlock',
                    'lock_survives_restart', 'restart_in_height_2', 'skip_round_on_precommits']
+    p.rotate_wal = 1   # WAL rotations before most crashes and at random points (invisible to the specification)
     return p
 
 
